@@ -29,6 +29,7 @@ def dispatch (line : String) : String :=
     | "sched-err" => schedErrCmd rest
     | "sched-close" => schedCloseCmd rest
     | "sched-rec" => schedRecCmd rest
+    | "sched-rec-overlap" => schedRecOverlapCmd rest
     | "conc-coll" => concCollCmd rest
     | "catcher" => catcherCmd rest
     | "views" => viewsCmd rest
